@@ -52,6 +52,10 @@ Clauses(S, rs) ==
      <<"maximal", \A k \in DOMAIN rs : Range(rs[k].max) = Range(MaximalOf(S, FALSE))>>,
      <<"duplicates", \A k \in DOMAIN rs : Len(rs[k].dups) = Len(S.edges) - Cardinality({S.e2n[e] : e \in EdgeSet(S)})
                                            /\ Range(rs[k].dups) \subseteq EdgeSet(S)>>,
+     <<"degree_matrix", \A k \in DOMAIN rs : AllNodes(rs[k].degm, S) /\
+                          \A q \in DOMAIN rs[k].degm : rs[k].degm[q][2] = Degree(S, rs[k].degm[q][1])>>,
+     <<"simpliciality", \A k \in DOMAIN rs : Close(rs[k].sed, rs[1].sed) /\
+                          \A q \in DOMAIN rs[k].simp : Close(rs[k].simp[q], rs[1].simp[q])>>,
      <<"katz_centrality", \A k \in DOMAIN rs : SameVec(rs[k].katz, rs[1].katz)
                                                  /\ (rs[k].katz = <<>> \/ AllNodes(rs[k].katz, S))>>,
      <<"degree_assortativity", \A k \in DOMAIN rs : Close(rs[k].assort, rs[1].assort)>>,
